@@ -469,12 +469,12 @@ def cases(tier, seed):
     for base1 in (0, 1):
         for k00 in S + R:
             nm = "model K=2|Beta%s|Alpha.f0:%s" % ("(Alpha)" if base1 else "", k00)
-            cs.append(Case(nm, spec_case(2, [k00], (["opt-ref", "list-ref", "int"] if tier == "quick" else R + ["int"]), {"base1": base1, "kind0_0": 0}, quick=(tier == "quick")), key=nm, validate=0, timeout=1200 if tier == "quick" else 3600, max_paths=20000))
+            cs.append(Case(nm, spec_case(2, [k00], (["opt-ref", "list-ref", "int"] if tier == "quick" else R + ["int"]), {"base1": base1, "kind0_0": 0}, quick=(tier == "quick")), key=nm, validate=0, timeout=1200 if tier == "quick" else 2400, max_paths=20000))
     if tier != "quick":
         for base1, base2 in [(0, 0), (1, 0), (1, 1), (1, 2)]:
             for k in R:
                 nm = "model K=3|bases=%d,%d|f0:%s" % (base1 - 1, base2 - 1, k)
-                cs.append(Case(nm, spec_case(3, [k], [], {"base1": base1, "base2": base2}), key=nm, validate=0, timeout=3600, max_paths=50000))
+                cs.append(Case(nm, spec_case(3, [k], [], {"base1": base1, "base2": base2}), key=nm, validate=0, timeout=2400, max_paths=50000))
     L = 4 if tier == "quick" else 6
     cs.append(Case("names|association-table-name|len<=%d" % L, name_collision_case("association-table-name", L), key="names|association-table-name", validate=0, timeout=900, max_paths=200000, meta=dict(solver_finds_candidates_real_code_confirms=True)))
     cs.append(Case("names|association-columns|len<=%d" % L, name_collision_case("association-columns", L), key="names|association-columns", validate=0, timeout=900, max_paths=200000, meta=dict(solver_finds_candidates_real_code_confirms=True)))
